@@ -1090,12 +1090,9 @@ pub extern "C" fn send_time_limit(fd: c_int) -> u64 {
                 &raw mut len,
             ) == -1
             {
-                let error = std::io::Error::last_os_error();
-                if Some(libc::ENOTSOCK) == error.raw_os_error() {
-                    // not a socket
-                    return u64::MAX;
-                }
-                panic!("getsockopt failed: {error}");
+                // the option cannot be read (not a socket, closed descriptor): no limit is known
+                // and nothing is cached; the I/O call itself reports the descriptor's error
+                return u64::MAX;
             }
             let time_limit = get_time_limit(&tv);
             assert!(SEND_TIME_LIMIT.insert(fd, time_limit).is_none());
@@ -1119,12 +1116,9 @@ pub extern "C" fn recv_time_limit(fd: c_int) -> u64 {
                 &raw mut len,
             ) == -1
             {
-                let error = std::io::Error::last_os_error();
-                if Some(libc::ENOTSOCK) == error.raw_os_error() {
-                    // not a socket
-                    return u64::MAX;
-                }
-                panic!("getsockopt failed: {error}");
+                // the option cannot be read (not a socket, closed descriptor): no limit is known
+                // and nothing is cached; the I/O call itself reports the descriptor's error
+                return u64::MAX;
             }
             let time_limit = get_time_limit(&tv);
             assert!(RECV_TIME_LIMIT.insert(fd, time_limit).is_none());
